@@ -16,7 +16,7 @@ From Coq Require Import ZArith List Bool Arith.
 From SP Require Import Model.Num Model.Arrow.
 Import ListNotations.
 
-(* unchecked read values[i] *)
+(* unchecked read np.float64(values[i]) *)
 Definition vget (vals : list num) (i : nat) : num := nth i vals None.
 
 Definition nadd (a b : num) : num :=
@@ -158,11 +158,15 @@ Inductive kind := KMultiPoint | KLine | KRing | KMultiLine | KPolygon | KMultiPo
 (* NaN (missing) and a computed non-finite area are both [None] *)
 Definition joinn (o : option num) : num := match o with Some r => r | None => None end.
 
-(* <Kind>Array.length: np.zeros(len) for multipoints; the map kernel of the
-   kind's nesting depth over compute_line_length otherwise *)
+(* np.where(self.isna(), np.nan, 0.0): zero for every element, NaN for a missing one *)
+Definition zeros_nan {R} (zero : R) (missing : list bool) : list (option R) :=
+  map (fun m : bool => if m then None else Some zero) missing.
+
+(* <Kind>Array.length: zeros_nan for multipoints; the map kernel of the kind's
+   nesting depth over compute_line_length otherwise *)
 Definition arr_length (k : kind) (a : listarr) : list (option lenres) :=
   match k with
-  | KMultiPoint => repeat (Some ([], Some 0%Z)) (la_len a)
+  | KMultiPoint => zeros_nan ([], Some 0%Z) (la_isna a)
   | KLine | KRing =>
       map_nested1 compute_line_length (buffer_values a) (buffer_offsets a) (la_isna a)
   | KMultiLine | KPolygon =>
@@ -171,20 +175,19 @@ Definition arr_length (k : kind) (a : listarr) : list (option lenres) :=
       map_nested3 compute_line_length (buffer_values a) (buffer_offsets a) (la_isna a)
   end.
 
-(* <Kind>Array.area (doubled): np.zeros(len) for multipoint / line / ring /
-   multiline -- also for their missing rows *)
+(* <Kind>Array.area (doubled): zeros_nan for multipoint / line / ring / multiline *)
 Definition arr_area (k : kind) (a : listarr) : list num :=
   match k with
-  | KMultiPoint | KLine | KRing | KMultiLine => repeat (Some 0%Z) (la_len a)
+  | KMultiPoint | KLine | KRing | KMultiLine => zeros_nan 0%Z (la_isna a)
   | KPolygon =>
       map joinn (map_nested2 compute_area (buffer_values a) (buffer_offsets a) (la_isna a))
   | KMultiPolygon =>
       map joinn (map_nested3 compute_area (buffer_values a) (buffer_offsets a) (la_isna a))
   end.
 
-(* PointArray.length / .area: np.zeros(len(self)) *)
-Definition pt_length (a : fixarr) : list (option lenres) := repeat (Some ([], Some 0%Z)) (fa_len a).
-Definition pt_area (a : fixarr) : list num := repeat (Some 0%Z) (fa_len a).
+(* PointArray.length / .area: np.where(self.isna(), np.nan, 0.0) *)
+Definition pt_length (a : fixarr) : list (option lenres) := zeros_nan ([], Some 0%Z) (fa_isna a).
+Definition pt_area (a : fixarr) : list num := zeros_nan 0%Z (fa_isna a).
 
 (* ------------------------------------------------------------------ *)
 (* the scalar classes.  A scalar wraps a pyarrow ListScalar; its [listarray]
@@ -252,6 +255,34 @@ Definition multipolygon_boundary (a : listarr) : listarr :=
          la_vals := buffer_values a |}
   | _ => a
   end.
+
+(* Polygon.boundary = MultiLine(self.data): the very same ListScalar *)
+Definition sc_polygon_boundary (s : listarr) : listarr := s.
+
+Definition empty_scalar : listarr :=
+  {| la_off := 0; la_len := 0; la_valid := None; la_offs := []; la_vals := [] |}.
+
+(* MultiPolygon.boundary:
+     buffer_offsets = self.buffer_offsets
+     if len(buffer_offsets) < 2: return MultiLine([])
+     start, stop = buffer_offsets[0][0], buffer_offsets[0][-1]
+     rings = ListArray.from_arrays(buffer_offsets[1][start:stop + 1], self.buffer_values)
+     MultiLine(ListArray.from_arrays([0, len(rings)], rings)[0])
+   The result's listarray is [rings]. *)
+Definition sc_multipolygon_boundary (s : listarr) : listarr :=
+  match buffer_offsets s with
+  | o0 :: o1 :: _ =>
+      let start := getn o0 0 in
+      let stop := getn o0 (length o0 - 1) in
+      let ro := slice start (stop + 1) o1 in
+      {| la_off := 0; la_len := length ro - 1; la_valid := None;
+         la_offs := [ro]; la_vals := buffer_values s |}
+  | _ => empty_scalar
+  end.
+
+(* what a scalar looks like to the library *)
+Definition sc_view (s : listarr) : list (list nat) * list num :=
+  (sc_buffer_offsets s, buffer_values s).
 
 (* what an array looks like to the library: missing mask, offsets per level
    (first level sliced), values buffer *)
